@@ -16,6 +16,11 @@ def check(run):
     run.prove(extra_targets=engine.TARGETS)
     n = 150 if run.tier == "quick" else 4000
     cases = engine.gen_cases(run, n, profile=PROFILE, threads=(1, 2, 3, 4) if run.tier == "quick" else (1, 2, 3, 4, 6, 8), prefix="a")
+    for k, c in enumerate(cases):
+        # a third of the projects raise their OWN subclasses of AbortTest / AbortSuite / AbortAllTests (class BackendDown(lcc.AbortAllTests))
+        if k % 3 == 1:
+            c["abort_subclasses"] = True
+            run.count("projects_raising_their_own_abort_subclasses")
     plain, interrupted = [], []
     for c in cases:
         c["options"]["stop_on_failure"] = run.rng.random() < 0.3
